@@ -428,7 +428,7 @@ class Engine:
         plain = None
         small = [z3.And(t <= 64, t >= -64) for t in terms]
         try:
-            self.solver.set("timeout", min(1000, old))
+            self.solver.set("timeout", min(3000, old))
             if self.hints:
                 hs = list(self.hints) + small
                 if self._check(*extra, *hs) == "sat":
